@@ -20,7 +20,7 @@ def scenario(rng):
                          seg=rng.random() < 0.3, react=rng.choice(('ok', 'ok', 'ok', 'reject', 'throttle', 'nack', 'silent', 'late', 'slow'))))
     return dict(msgs=msgs, hook=rng.choice(('none', 'none', 'sending', 'received', 'error', 'all')),
                 stalls=rng.choice((0, 0, 1, 2)), drops=rng.choice((0, 0, 0, 1)), seed=rng.randrange(10 ** 9),
-                put_hook=rng.random() < 0.3)
+                put_hook=rng.random() < 0.3, order=rng.choice((1, 7)))
 
 
 def receipt_scenario(rng):
@@ -43,7 +43,7 @@ def run(sc):
     from aiosmpplib.correlator import SimpleCorrelator
     rng = random.Random(sc['seed'])
     corr = SimpleCorrelator('c', max_ttl_response=TTL)
-    s = Sim(enquire_link_interval=2.0, socket_timeout=3.0, correlator=corr)
+    s = Sim(task_order=sc.get('order', 1), enquire_link_interval=2.0, socket_timeout=3.0, correlator=corr)
     try:
         if sc['hook'] in ('sending', 'all'):
             for i in range(100):
